@@ -202,8 +202,8 @@ def thorough_list(prop, seed, cap):
     space = [s for s in space if show(s) not in cur]
     rnd.shuffle(space)
     costs = _costs()
-    # every curated shape except the few whose measured cost exceeds 1000 CPU s
-    base = [sh for sh in CURATED if costs.get(show(sh), 0) <= 1000]
+    # every curated shape whose measured cost is at most 300 CPU s (C19 with the 1000 s cap did not finish in 55 minutes)
+    base = [sh for sh in CURATED if costs.get(show(sh), 0) <= 300 or show(sh) in FORCE_QUICK.get(prop, ())]
     return base + space[:cap]
 
 
